@@ -28,8 +28,9 @@ def projection(cp) -> Dict[str, Any]:
         bd = cp.get_critical_path_breakdown()
     rows = []
     if bd is not None:
-        for t in bd[["event_idx", "duration", "type", "bound_by", "stream", "pid", "tid"]].itertuples(index=False):
-            rows.append([None if t[0] != t[0] else int(t[0]), int(t[1]), str(t[2]), str(t[3])] + [None if x != x else int(x) for x in t[4:]])
+        for t in bd[["event_idx", "duration", "type", "bound_by", "stream", "pid", "tid", "cat", "s_name"]].itertuples(index=False):
+            rows.append([None if t[0] != t[0] else int(t[0]), int(t[1]), str(t[2]), str(t[3])] + [None if x != x else int(x) for x in t[4:8]] +
+                        [None if (t[8] is None or t[8] != t[8]) else str(t[8])])
     pw = 0
     for a, b in zip(cp.critical_path_nodes, cp.critical_path_nodes[1:]):
         pw += int(cp.edges[a, b]["weight"])
@@ -41,7 +42,7 @@ class C19(Prop):
     id = "C19"
     trace_module = "Trace_Persist"
     mc = [{"module": "MC_Persist", "quick": "MC_Persist_mc.cfg", "thorough": "MC_Persist_mc.cfg", "actions": ["Reweight"]}]
-    n_cases = {"quick": 60, "thorough": 600}
+    n_cases = {"quick": 200, "thorough": 2000}
     rule = ("graphs from C08's generator; every case executes one TLC-enumerated history of 5 operations over two save slots (save, restore, "
             "recompute on the restored graph, saving a restored graph again, what-if reweighting of the live graph) on the real objects and "
             "records the digests of (nodes+edges+weights+types+attributions), (path, event set, edge set), the breakdown table and the path "
@@ -58,7 +59,19 @@ class C19(Prop):
 
     def gen_case(self, rng, k, tier):
         case = gen_cp_case(rng, tier)
-        if rng.random() < 0.4:      # glitchy timers: a child may outlast its parent by 1-2 us; the analysis clamps the negative weight to 0
+        if rng.random() < 0.45:
+            # ties: several streams finish at the same instant before a device synchronisation, so several longest paths exist and only
+            # the stored one is "the" critical path of the saved graph
+            from .cp import cp_cfg
+            from .common import case_from_cfg
+            cfg = cp_cfg(rng, tier)
+            cfg.tie_sync, cfg.streams, cfg.n_ranks, cfg.loner = True, rng.choice([(7, 9), (7, 9, 13), (9, 7)]), 1, False
+            cfg.n_steps, cfg.p_sync, cfg.p_event_sync, cfg.pre_ops, cfg.p_launch = 0, 0.0, 0.0, rng.choice([2, 3, 4]), 0.8   # nothing is trimmed; no earlier zero-weight waits
+            extra = {k: case[k] for k in ("rank", "incl", "zero", "ann", "inst", "iseed")}
+            case = case_from_cfg(rng, cfg)
+            case.update(extra)
+            case["rank"], case["ann"], case["inst"], case["tie"], case["zero"] = 0, "", None, True, False
+        elif rng.random() < 0.4:      # glitchy timers: a child may outlast its parent by 1-2 us; the analysis clamps the negative weight to 0
             from .cp import cp_cfg
             from .common import case_from_cfg
             cfg = cp_cfg(rng, tier)
@@ -68,6 +81,13 @@ class C19(Prop):
             case = case_from_cfg(rng, cfg)
             case.update(extra)
             case["rank"] = 0
+        if rng.random() < 0.4:
+            # operator names that shorten to the empty string or read like a missing value once written to CSV
+            odd = ["<forward op>", "<unknown>", "(null)", "None", "null", "N/A", "NA", "nan"]
+            for rk in case["ranks"]:
+                hosts = [e for e in rk["events"] if e.get("cat") == "cpu_op" and e.get("ph") == "X"]
+                for e in rng.sample(hosts, min(len(hosts), rng.randint(1, 3))):
+                    e["name"] = rng.choice(odd)
         path = os.path.join(os.environ.get("VF_SCRATCH", ""), "c19_hists.json")
         hists = json.load(open(path)) if os.path.exists(path) else [[{"op": "save", "s": 1, "t": 0}, {"op": "restore", "s": 1, "t": 0},
                                                                        {"op": "recompute", "s": 1, "t": 0}]]
@@ -124,8 +144,8 @@ class C19(Prop):
                 except Exception as ex:
                     rec["err"] = hta.exc_str(ex)
                 obs["steps"].append(rec)
-            for p in extracted:
-                shutil.rmtree(p, ignore_errors=True)
+            # the archives' extraction directories under /tmp are deliberately left behind: the next case of this worker saves to the same
+            # paths, as a user does who saves a newer graph under the old name (core.main removes the whole mirror tree at the end)
         return obs
 
     def nontrivial(self, case, obs):
